@@ -69,6 +69,25 @@ def main():
         R.violation("proof", "proof obligations of props/C15.v no longer check: " + str(R.broken_proof)[-800:],
                     {"theorem_file": "coq/props/C15.v", "log": R.broken_proof}, no_input=not any(v["kind"] == "property" for v in R.violations))
     ntot = len(pairs) + len(triples) + len(CATS) * len(DIMSTRS) * 5 + len(ALLCATS) * len(SCALAR_DIMSTRS) * 8
+    # Scalar / ScalarLike / PRNGKeyArray equal their documented definitions WHATEVER was imported first: two fresh interpreters,
+    # one touching the lazy aliases before anything has imported jax, one after
+    import subprocess
+    PROBE = ("import sys, typing\n%s\nimport jaxtyping\nSL, SC, PK = jaxtyping.ScalarLike, jaxtyping.Scalar, jaxtyping.PRNGKeyArray\n"
+             "import jax, jax.numpy as jnp, numpy as np\n"
+             "def inst(x, ann):\n    alts = typing.get_args(ann) if typing.get_origin(ann) is typing.Union else (ann,)\n    return any(isinstance(x, a) for a in alts)\n"
+             "vals = [jnp.array(1.0), jnp.array(1), jnp.array(True), jax.random.key(0), np.float32(1), np.zeros(()), 1.5, 2, True, 1j, jnp.zeros((2,)), np.zeros((1,)), 's']\n"
+             "print('ROW', ''.join('1' if inst(v, SL) else '0' for v in vals), ''.join('1' if inst(v, SC) else '0' for v in vals), ''.join('1' if inst(v, PK) else '0' for v in [jax.random.key(0), jax.random.PRNGKey(0), jnp.zeros((2,), 'uint32'), jnp.zeros((3,), 'uint32'), jnp.zeros((2,), 'int32'), np.zeros((2,), 'uint32')]))\n")
+    rows = {}
+    for order, pre in (("aliases-first", ""), ("jax-first", "import jax")):
+        pr = subprocess.run([vf.PY, "-c", PROBE % pre], capture_output=True, text=True, env=vf.impl_env(), timeout=600)
+        line = [l for l in pr.stdout.splitlines() if l.startswith("ROW ")]
+        rows[order] = line[-1][4:] if line else "X:" + pr.stderr[-200:]
+        ntot += 1
+    want = "1111111111000 1111000000000 111000"      # documented: Shaped[ArrayLike, ""], Shaped[Array, ""], Key[Array, ""] | UInt32[Array, "2"]
+    for order, got in rows.items():
+        if got != want:
+            R.violation("property", "Scalar / ScalarLike / PRNGKeyArray do not equal their documented definitions in a fresh interpreter (%s): verdict rows %s, expected %s" % (order, got, want),
+                        {"order": order, "got": got, "expected": want, "probe": PROBE % ("import jax" if order == "jax-first" else "")}, key={"kind": "lazy-alias", "order": order})
     R.coverage.update(evaluations=ntot, distinct_nontrivial=stats.get("nest-law-ok", 0) + stats.get("nest3-ok", 0), exhaustive=bool(R.thorough),
                       samples=[{"law": "nest", "lhs": "Float[Shaped[ndarray, 'a *v b'], 'a']", "rhs": "(Shaped n Float)[ndarray, 'a a *v b']"}, {"builds_compared_with_model": len(keys)}],
                       rule="both sides of each law are built with the real library and compared on %d probe arrays (10 shapes x 7 dtypes), with and without prior bindings: nesting law on %d (category pair, dim-string pair) combinations out of %d; three-level nesting on %d category triples; "
